@@ -1819,7 +1819,10 @@ class Compiler:
         return body
 
     def visit_CodeBlock(self, node):
-        stmts = template(textwrap.dedent(node.source.strip('\n')))
+        try:
+            stmts = template(textwrap.dedent(node.source.strip('\n')))
+        except SyntaxError as exc:
+            raise ExpressionError(exc.msg, node.source)
         stmts = list(map(self._visitor, stmts))
         stmts.insert(0, TokenRef(node.source))
         return stmts
